@@ -343,6 +343,215 @@ fn part_d(out: &mut Out, e: &mut Engine) {
     out.cells.push("argument-routing".to_string());
 }
 
+
+// ---- (e) element-wise conversion of containers: a host parameter of type Vec<T> accepts a list / vector exactly when every element
+//          converts, and then receives every element in order; otherwise the call is an error and the body is not entered
+static SEEN_VEC: std::sync::Mutex<Vec<String>> = std::sync::Mutex::new(Vec::new());
+
+fn part_e(out: &mut Out, e: &mut Engine) {
+    e.register_fn("take-vec-u8", |v: Vec<u8>| -> usize { SEEN_VEC.lock().unwrap().push(format!("{:?}", v)); v.len() });
+    e.register_fn("take-vec-i64", |v: Vec<i64>| -> usize { SEEN_VEC.lock().unwrap().push(format!("{:?}", v)); v.len() });
+    e.register_fn("take-vec-string", |v: Vec<String>| -> usize { SEEN_VEC.lock().unwrap().push(format!("{:?}", v)); v.len() });
+    e.register_fn("take-opt-u8", |v: Option<u8>| -> usize { SEEN_VEC.lock().unwrap().push(format!("{:?}", v)); 1 });
+    let elems = ["1", "255", "300", "-1", "\"two\"", "2.5"];
+    // which element texts convert to which element type, and how the host prints them
+    let conv = |ty: &str, el: &str| -> Option<String> {
+        match (ty, el) {
+            ("u8", "1") | ("i64", "1") => Some("1".to_string()),
+            ("u8", "255") | ("i64", "255") => Some("255".to_string()),
+            ("i64", "300") => Some("300".to_string()),
+            ("i64", "-1") => Some("-1".to_string()),
+            ("string", "\"two\"") => Some("\"two\"".to_string()),
+            _ => None,
+        }
+    };
+    for (f, ty) in [("take-vec-u8", "u8"), ("take-vec-i64", "i64"), ("take-vec-string", "string")] {
+        for n in 0..=3usize {
+            let mut idx = vec![0usize; n];
+            loop {
+                let args: Vec<&str> = idx.iter().map(|i| elems[*i]).collect();
+                let converted: Vec<Option<String>> = args.iter().map(|a| conv(ty, a)).collect();
+                let ok = converted.iter().all(|c| c.is_some());
+                let want_seen = if ok { format!("[{}]", converted.iter().map(|c| c.clone().unwrap()).collect::<Vec<_>>().join(", ")) } else { String::new() };
+                for (cname, ctor) in [("list", "list"), ("immutable-vector", "vector-immutable"), ("mutable-vector", "vector")] {
+                    let code = format!("({} ({} {}))", f, ctor, args.join(" "));
+                    SEEN_VEC.lock().unwrap().clear();
+                    let r = show(run1(e, &code));
+                    let seen = SEEN_VEC.lock().unwrap().join("|");
+                    if cname == "mutable-vector" {
+                        // a mutable vector is not promised to convert; if it is accepted the elements must still be exact
+                        if r != "ERR" {
+                            out.check("e-elements", format!("host saw for {}", code), want_seen.clone(), seen);
+                        } else {
+                            out.check("e-entered", format!("host body entered by rejected {}", code), String::new(), seen);
+                        }
+                        continue;
+                    }
+                    out.check("e-status", code.clone(), (if ok { format!("(i {})", n) } else { "ERR".to_string() }), r);
+                    out.check("e-elements", format!("host saw for {}", code), want_seen.clone(), seen);
+                }
+                // Engine::extract of the same value
+                if ty == "u8" {
+                    let code = format!("(define *extract-me* (vector-immutable {}))", args.join(" "));
+                    let _ = run1(e, &code);
+                    let got = match e.extract::<Vec<u8>>("*extract-me*") { Ok(v) => format!("{:?}", v), Err(_) => "ERR".to_string() };
+                    out.check("e-extract", format!("extract::<Vec<u8>> of (vector-immutable {})", args.join(" ")), if ok { want_seen.clone() } else { "ERR".to_string() }, got);
+                }
+                let mut k = 0;
+                while k < n {
+                    idx[k] += 1;
+                    if idx[k] < elems.len() { break; }
+                    idx[k] = 0;
+                    k += 1;
+                }
+                if k == n { break; }
+            }
+        }
+    }
+    for (arg, want, seen_want) in [("1", "(i 1)", "Some(1)"), ("255", "(i 1)", "Some(255)"), ("300", "ERR", ""), ("-1", "ERR", ""), ("\"two\"", "ERR", ""), ("void", "(i 1)", "None")] {
+        let code = format!("(take-opt-u8 {})", arg);
+        SEEN_VEC.lock().unwrap().clear();
+        let r = show(run1(e, &code));
+        let seen = SEEN_VEC.lock().unwrap().join("|");
+        if arg == "void" && r == "ERR" { continue; } // whether void means None is not pinned down
+        out.check("e-status", code.clone(), want.to_string(), r);
+        out.check("e-elements", format!("host saw for {}", code), seen_want.to_string(), seen);
+    }
+    out.cells.push("container-elements".to_string());
+}
+
+// ---- (f) references derived from a lent object: every history of <= 5 operations over two stash slots (derive through each registered
+//          shape, release, mutate the parent) against a borrow-count model: the parent may be mutated exactly when no derived
+//          reference is alive, and a live derived reference always reads the element it was derived from
+pub struct Entry {
+    id: usize,
+}
+impl Entry {
+    fn id(&self) -> usize {
+        self.id
+    }
+}
+pub struct Registry {
+    entries: Vec<Entry>,
+}
+impl Registry {
+    fn entry(&mut self, idx: usize) -> &Entry {
+        &self.entries[idx]
+    }
+    fn first(&mut self) -> &Entry {
+        &self.entries[0]
+    }
+    fn push(&mut self, id: usize) {
+        self.entries.push(Entry { id });
+    }
+    fn len(&mut self) -> usize {
+        self.entries.len()
+    }
+}
+impl CustomReference for Entry {}
+steel::custom_reference!(Entry);
+impl CustomReference for Registry {}
+steel::custom_reference!(Registry);
+
+fn part_f(out: &mut Out) {
+    use steel::steel_vm::register_fn::MarkerWrapper8;
+    let mut e = Engine::new();
+    e.register_value("*registry*", SteelVal::Void);
+    RegisterFn::<_, MarkerWrapper8<(Registry, usize, Entry, Entry, Registry)>, Entry>::register_fn(&mut e, "registry-entry", Registry::entry);
+    RegisterFn::<_, MarkerWrapper8<(Registry, Entry, Entry, Registry)>, Entry>::register_fn(&mut e, "registry-first", Registry::first);
+    e.register_fn("registry-push!", Registry::push);
+    e.register_fn("registry-len", Registry::len);
+    e.register_fn("entry-id", Entry::id);
+    // every operation appends one outcome letter to vlog: m = parent mutated, r = mutation refused, d = derived, x = deriving refused, - = released
+    let _ = e.run("(define s1 #f) (define s2 #f) (define vlog \"\") (define (note! c) (set! vlog (string-append vlog c))) \
+        (define (push!) (note! (with-handler (lambda (e) \"r\") (begin (registry-push! *registry* 9) \"m\")))) \
+        (define (try-id s) (if s (with-handler (lambda (e) 'dead) (entry-id s)) 'none)) \
+        (define (d1e!) (let ((c (with-handler (lambda (e) #f) (registry-entry *registry* 1)))) (if c (begin (set! s1 c) (note! \"d\")) (note! \"x\")))) \
+        (define (d1f!) (let ((c (with-handler (lambda (e) #f) (registry-first *registry*)))) (if c (begin (set! s1 c) (note! \"d\")) (note! \"x\")))) \
+        (define (d2e!) (let ((c (with-handler (lambda (e) #f) (registry-entry *registry* 1)))) (if c (begin (set! s2 c) (note! \"d\")) (note! \"x\")))) \
+        (define (d2f!) (let ((c (with-handler (lambda (e) #f) (registry-first *registry*)))) (if c (begin (set! s2 c) (note! \"d\")) (note! \"x\")))) \
+        (define (r1!) (set! s1 #f) (note! \"-\")) (define (r2!) (set! s2 #f) (note! \"-\"))".to_string());
+    let ops: Vec<&str> = vec!["d1e", "d1f", "d2e", "d2f", "r1", "r2", "push"];
+    if let Ok(script) = std::env::var("SVH_F_SCRIPT") {
+        let mut reg = Registry { entries: vec![Entry { id: 70 }, Entry { id: 71 }] };
+        let r = e.run_with_reference::<Registry, Registry>(&mut reg, "*registry*", &script);
+        eprintln!("{:?}", r.map(|v| steel::verif::encode(&v)));
+        return;
+    }
+    let ids = [70usize, 71];
+    let mut histories = 0usize;
+    let mut ideal = 0usize;
+    for len in 1..=5usize {
+        // the native tier never releases code memory: the 16807 histories of length 5 run on the interpreter (a process can only hold
+        // so many executable mappings), the 2800 shorter ones with the default configuration
+        if len == 5 { std::env::set_var("STEEL_JIT", "false"); }
+        let mut idx = vec![0usize; len];
+        loop {
+            let names: Vec<&str> = idx.iter().map(|i| ops[*i]).collect();
+            let script = format!("(let () (set! vlog \"\") (set! s1 #f) (set! s2 #f) {} (let ((res (list vlog (try-id s1) (try-id s2)))) (set! s1 #f) (set! s2 #f) res))",
+                                 names.iter().map(|n| format!("({}!)", n)).collect::<Vec<_>>().join(" "));
+            let mut reg = Registry { entries: vec![Entry { id: 70 }, Entry { id: 71 }] };
+            let r = std::panic::catch_unwind(std::panic::AssertUnwindSafe(|| e.run_with_reference::<Registry, Registry>(&mut reg, "*registry*", &script)));
+            let got = match r { Ok(Ok(v)) => steel::verif::encode(&v), Ok(Err(err)) => { if std::env::var("SVH_DEBUG").is_ok() { eprintln!("{} => {:?}", script, err); } "ERR".to_string() }, Err(_) => "PANIC".to_string() };
+            let label = format!("derived-reference history [{}]", names.join(" "));
+            // outcome letters observed
+            let letters: Vec<char> = match (got.find("(str \""), got.find("\")")) {
+                (Some(a), Some(b)) if b >= a + 6 => got[a + 6..b].chars().collect(),
+                _ => Vec::new(),
+            };
+            if letters.len() != len {
+                out.check("f-history", label.clone(), format!("{} outcome letters", len), got.clone());
+            } else {
+                // borrow model driven by the observed outcomes: exclusive use of the parent (deriving, mutating) may only be GRANTED while no
+                // derived reference is alive (safety); a refusal is always allowed, but when the ideal model (release is immediate) never
+                // refuses a derivation the observed outcomes must be exactly the ideal ones
+                let mut s: [Option<usize>; 2] = [None, None];
+                let mut nentries = 2usize;
+                let mut unsafe_grant: Option<String> = None;
+                let mut is_ideal = true;
+                for (k, name) in names.iter().enumerate() {
+                    let live = s[0].is_some() || s[1].is_some();
+                    match (*name, letters[k]) {
+                        ("push", 'm') => { if live && unsafe_grant.is_none() { unsafe_grant = Some(format!("step {}: the parent was mutated while a derived reference was alive", k)); } nentries += 1; }
+                        ("push", 'r') => { if !live { is_ideal = false; } }
+                        ("r1", '-') => s[0] = None,
+                        ("r2", '-') => s[1] = None,
+                        (d, 'd') if d.starts_with('d') => {
+                            if live && unsafe_grant.is_none() { unsafe_grant = Some(format!("step {}: a reference was derived through &mut while another derived reference was alive", k)); }
+                            s[if d.starts_with("d1") { 0 } else { 1 }] = Some(if d.ends_with('e') { 1 } else { 0 });
+                        }
+                        (d, 'x') if d.starts_with('d') => { if !live { is_ideal = false; } }
+                        _ => { unsafe_grant = Some(format!("step {}: outcome letter {:?} does not belong to operation {}", k, letters[k], name)); }
+                    }
+                }
+                out.check("f-safety", label.clone(), "no exclusive access granted while a derived reference is alive".to_string(),
+                          unsafe_grant.unwrap_or_else(|| "no exclusive access granted while a derived reference is alive".to_string()));
+                let show_slot = |x: Option<usize>| match x { Some(k) => format!("(i {})", ids[k]), None => "(sym \"none\")".to_string() };
+                let tail = format!("{} {})", show_slot(s[0]), show_slot(s[1]));
+                out.check("f-read", format!("{}: what the live derived references read at the end", label), tail.clone(), got[got.find("\") ").map(|p| p + 3).unwrap_or(0)..].to_string());
+                out.check("f-host-state", format!("entries of the host object after [{}]", names.join(" ")), nentries.to_string(), reg.entries.len().to_string());
+                if is_ideal { ideal += 1; }
+                // histories without a second derivation attempt while one is alive involve no delayed release: they must be ideal
+                let derives = names.iter().filter(|n| n.starts_with('d')).count();
+                if derives <= 1 {
+                    out.check("f-liveness", format!("{}: nothing is refused without a live derived reference", label), "ideal".to_string(), (if is_ideal { "ideal" } else { "spurious refusal" }).to_string());
+                }
+            }
+            histories += 1;
+            let mut k = 0;
+            while k < len {
+                idx[k] += 1;
+                if idx[k] < ops.len() { break; }
+                idx[k] = 0;
+                k += 1;
+            }
+            if k == len { break; }
+        }
+    }
+    std::env::remove_var("STEEL_JIT");
+    out.cells.push(format!("derived-references:{}-histories:{}-ideal", histories, ideal));
+}
+
 // ---- (c) lent references
 struct Counter {
     value: usize,
@@ -517,6 +726,13 @@ pub fn main(_args: &[String]) {
             if part == "all" || part == "d" {
                 let mut e = Engine::new();
                 part_d(&mut out, &mut e);
+            }
+            if part == "all" || part == "e" {
+                let mut e = Engine::new();
+                part_e(&mut out, &mut e);
+            }
+            if part == "all" || part == "f" {
+                part_f(&mut out);
             }
             if part == "all" || part == "c" {
                 part_c(&mut out);
